@@ -381,8 +381,8 @@ theorem subs_ok : (x : Expr) → (i : Nat) → Pre all i (yield x) → nf x = tr
     obtain ⟨he, hlb, hix, _⟩ := hpre
     simp only [nf, Bool.and_eq_true] at hnf
     simp only [precOK, Bool.and_eq_true] at hp
-    have IHe := subs_ok e i he hnf.1.1 hp.1.1 hprev
-    have IHx := subs_ok ix (i + ntok e + 1) hix hnf.1.2 hp.2 (prevOK_of_tok hlb (by decide))
+    have IHe := subs_ok e i he hnf.1 hp.1.1 hprev
+    have IHx := subs_ok ix (i + ntok e + 1) hix hnf.2 hp.2 (prevOK_of_tok hlb (by decide))
     simp only [placeG, subsP, List.mem_cons, List.mem_append, placeG_snd] at hn hs
     rcases hn with rfl | hn | hn
     · exact hs
